@@ -86,6 +86,8 @@ type histGen struct {
 	ethFunded map[string]bool
 	ethSeq    int
 	poorN     int
+	freshN    int
+	queued    []*txSpec // transactions that follow the one just generated (multi-transaction kinds)
 	kinds     map[string]int
 	weights   []string
 	groupN    int
@@ -147,7 +149,7 @@ func newHistGen(t *rapid.T, w *sim.World) *histGen {
 		"ibtp-req", "ibtp-req", "ibtp-req", "ibtp-rcpt", "ibtp-rcpt", "ibtp-badidx", "ibtp-badproof",
 		"group", "gov-register-chain", "gov-register-service", "gov-vote", "gov-vote", "gov-vote", "gov-lifecycle",
 		"malformed", "malformed", "xvm", "badsig", "poor", "query",
-		"script", "script", "script", "mutated", "mutated", "ibtp-mutated",
+		"script", "script", "script", "mutated", "mutated", "ibtp-mutated", "fresh-poor",
 	}
 	return g
 }
@@ -192,6 +194,12 @@ func (g *histGen) amount(from *sim.Key) string {
 // genTx draws one transaction of a drawn kind.
 func (g *histGen) genTx() *txSpec {
 	t, w := g.t, g.w
+	if len(g.queued) > 0 {
+		s := g.queued[0]
+		g.queued = g.queued[1:]
+		g.kinds[s.kind]++
+		return s
+	}
 	kind := rapid.SampledFrom(g.weights).Draw(t, "kind")
 	if kind == "xvm" && !xvmAllowed(g.replays) {
 		kind = "store"
@@ -491,6 +499,25 @@ func (g *histGen) genTx() *txSpec {
 		}
 		s.tx = w.BVM(poor, constant.StoreContractAddr, "Set", pb.String("p"), pb.String("q"))
 		s.desc = "BVM call by an account that cannot pay the fee"
+	case "fresh-poor":
+		// accounts without any record are credited by successful transfers and, in the same block (or the next one when
+		// the block ends in between), take part in transfers that succeed and then cannot pay their fee: the failed
+		// transfer must leave the earlier credits of both accounts alone
+		g.freshN++
+		fx, fp := sim.KeyFor(fmt.Sprintf("fresh-x-%d", g.freshN)), sim.KeyFor(fmt.Sprintf("fresh-p-%d", g.freshN))
+		funder := sim.Outsiders[rapid.IntRange(0, 1).Draw(t, "funder")]
+		a1 := rapid.IntRange(1, 5000).Draw(t, "freshAmtX")
+		a2 := rapid.IntRange(100, 5000).Draw(t, "freshAmtP")
+		a3 := rapid.IntRange(1, a2).Draw(t, "freshMove")
+		s.tx = sim.TransferTx(funder, w.Nonces.Next(funder), w.TS+1, fx.Addr, fmt.Sprintf("%d", a1))
+		s.desc = fmt.Sprintf("transfer %d to the fresh account %s", a1, short8(fx))
+		g.queued = append(g.queued,
+			&txSpec{kind: "transfer", tx: sim.TransferTx(funder, w.Nonces.Next(funder), w.TS+1, fp.Addr, fmt.Sprintf("%d", a2)), desc: fmt.Sprintf("transfer %d to the fresh account %s", a2, short8(fp))},
+			&txSpec{kind: "poor", victim: true, tx: sim.TransferTx(fp, w.Nonces.Next(fp), w.TS+1, fx.Addr, fmt.Sprintf("%d", a3)), desc: fmt.Sprintf("transfer %d from fresh %s to fresh %s (amount covered, fee not)", a3, short8(fp), short8(fx))})
+		if rapid.Bool().Draw(t, "freshSpend") {
+			a4 := rapid.IntRange(1, a1).Draw(t, "freshSpendAmt")
+			g.queued = append(g.queued, &txSpec{kind: "poor", victim: true, tx: sim.TransferTx(fx, w.Nonces.Next(fx), w.TS+1, sim.KeyFor("sink").Addr, fmt.Sprintf("%d", a4)), desc: fmt.Sprintf("transfer %d from fresh %s to the sink (amount covered, fee not)", a4, short8(fx))})
+		}
 	case "eth":
 		// Ethereum-format (legacy, signed) transactions: value transfers, creations and calls by funded and unfunded
 		// senders, with right and wrong nonces and gas limits (not part of the default weights)
